@@ -256,7 +256,7 @@ package annotations
 // the oauth backend of a namespace is looked up over hosts in hostname order
 // (never over a Go map): the first matching path wins
 //@ func (*updater).findBackend#determined
-//@   props C06 C18 C09
+//@   props C06 C18
 //@   no-map-range
 //@   lemma first: result != nil ==> exists i int, k int :: 0 <= i && i < len(hosts) && 0 <= k && k < len(hosts[i].Paths) && result == &hosts[i].Paths[k].Backend
 //@   lemma own-namespace: result != nil ==> result.Namespace == namespace
